@@ -34,12 +34,14 @@ def run(ctx):
                        "rounded coefficients per (API, stratum); non-trivial = every case (a3 != 0, at least one non-zero root "
                        "except by chance)")
     n = ctx.n(300000, 6000000)
-    req = []
+    # a value that fails is filed under "<stratum>:cancellation|gross|other" (see harness), so the planned strata are
+    # counted over "<stratum>" and "<stratum>:*" together
+    summ = ctx.run_events(b["asan"], n, require=[])
     for st in STRATA:
         mn = 50 if st != "one-real-small-p" else 20
         for api in ("exe", "exe+improve", "exe/count", "exe/improve-monotone"):
-            req.append((api, st, mn))
-    ctx.run_events(b["asan"], n, require=req)
+            tot = sum(v["n"] for (a, t), v in summ.items() if a == api and (t == st or t.startswith(st + ":")))
+            ctx.require(tot >= mn, "planned stratum %s:%s observed %d < %d events" % (api, st, tot, mn))
     ctx.assumptions += [
         "coefficients within about 1e±30 (root scale 1e±6 for double/long double, 1e±4 for float, leading coefficient 1e±8): "
         "the extreme-scale stratum of DESIGN §3 is not sampled (the closed form works with S^6; for float, roots below ~1e-6 make "
@@ -48,4 +50,6 @@ def run(ctx):
         "presented as a root must be one, but the refinement may move two values onto the same root",
         "when 1 is returned only the real root is 'presented as a root'; x2,x3 (real parts of the pair) are not judged",
         "for double/triple/nearly-double roots either count (1 or 3) is accepted",
+        "violation keys carry a mechanism suffix: ':cancellation' = 1 returned, |4p^3/27| < 0.1 q^2 for the cubic seen by the "
+        "library and error <= 4*eps^(1/3)*S; ':gross' = error > 1e-3*S (sign/branch errors); ':other' otherwise",
     ]
